@@ -655,6 +655,9 @@ class SeqWorld:
         return EMPTY2 if spec.yields == "qseq" else EMPTY
 
     def init_path(self, p, spec, ctx):
+        ie = getattr(spec, "init_extra", None)
+        if ie:
+            p.extra.update(ie(ctx))
         if spec.fields:
             p.extra["objs"] = {"self0": dict(spec.fields(ctx))}
         else:
